@@ -18,6 +18,7 @@ const (
 	oodUTF8   = "non-UTF-8 string: a JSON string cannot carry arbitrary bytes (encoding/json substitutes U+FFFD)"
 	oodMinMax = "subtree Min/Max ≠ 0: RFC 5280 4.2.1.10 requires minimum 0 and maximum absent; the JSON form has no member for them"
 	oodOID    = "empty OID: not an OBJECT IDENTIFIER value"
+	oodIPLen  = "IP address of 5 bytes: not an iPAddress GeneralName (RFC 5280 4.2.1.6: exactly 4 or 16 octets); the certificate parser refuses it (\"certificate contained IP address of length\") and net.IP.MarshalText documents the error"
 )
 
 var strFlavours = []string{"ascii", "empty string", "unicode+escapes", "invalid UTF-8"}
@@ -197,6 +198,9 @@ func x509Specs(tier string) []*spec {
 			}
 			if a[10] == 3 && a[6] > 0 {
 				ood = oodOID
+			}
+			if a[9] == 3 && a[4] > 0 {
+				ood = oodIPLen
 			}
 			return g, ood
 		}
